@@ -37,7 +37,7 @@ Definition model_level (t : text) (parent : option (nat * nat)) (o : offset)
                 | Ok (b, e) => ok_sx t b e (map (fun m => report_sx (Some (report_resource len (b, e) m)) (resource_ts len)) modes)
                 | Err => L [A 0]
                 end in
-      let s2 := match r with Ok (b, e) => L [A 1; of_nat b; of_nat e] | Err => L [A 0] end in
+      let s2 := match r with Ok (b, e) => L [A 1; of_nat b; of_nat e; of_Ns (sub t b e)] | Err => L [A 0] end in
       (r, s1, s2)
   | Some p =>
       let r := selection_ts p o in
@@ -45,7 +45,7 @@ Definition model_level (t : text) (parent : option (nat * nat)) (o : offset)
                 | Ok (b, e) => ok_sx t b e (map (fun m => report_sx (relative_offset (b, e) p m) (findtext_sel_ts len p)) modes)
                 | Err => L [A 0]
                 end in
-      let s2 := match findtext_sel_ts len p o with Ok (b, e) => L [A 1; of_nat b; of_nat e] | Err => L [A 0] end in
+      let s2 := match findtext_sel_ts len p o with Ok (b, e) => L [A 1; of_nat b; of_nat e; of_Ns (sub t b e)] | Err => L [A 0] end in
       (r, s1, s2)
   end.
 
@@ -59,7 +59,7 @@ Definition spec_level (t : text) (parent : option (nat * nat)) (o : offset)
       (r,
        ok_sx t b e (map (fun m => let off := spec_report plen (b - pb) (e - pb) m in
                                   L (sx_of_cursor (o_begin off) ++ sx_of_cursor (o_end off) ++ [of_nat b; of_nat e])) modes),
-       L [A 1; of_nat b; of_nat e])
+       L [A 1; of_nat b; of_nat e; of_Ns (sub t b e)])
   | None => (r, L [A 0], L [A 0])
   end.
 
